@@ -167,7 +167,9 @@ public:
     void wait() override {
         __TBB_ASSERT(this->my_initialized,
             "Use of commit_wait() without prior prepare_wait()");
+        __TBB_VERIF_POINT(vp_sleep_enter, this, 0);
         semaphore().P();
+        __TBB_VERIF_POINT(vp_sleep_leave, this, 0);
         __TBB_ASSERT(!this->my_is_in_list.load(std::memory_order_relaxed), "Still in the queue?");
         if (this->my_aborted)
             throw_exception(exception_id::user_abort);
@@ -201,6 +203,7 @@ public:
 
     //! prepare wait by inserting 'thr' into the wait queue
     void prepare_wait( wait_node<Context>& node) {
+        __TBB_VERIF_POINT(vp_mon_prepare_wait, this, 0);
         // TODO: consider making even more lazy instantiation of the semaphore, that is only when it is actually needed, e.g. move it in node::wait()
         if (!node.my_initialized) {
             node.init();
@@ -218,6 +221,7 @@ public:
             my_waitset.add(&node);
         }
 
+        __TBB_VERIF_POINT(vp_mon_in_waitset, this, 0);
         // Prepare wait guarantees Write Read memory barrier.
         // In C++ only full fence covers this type of barrier.
         atomic_fence_seq_cst();
@@ -229,6 +233,7 @@ public:
         const bool do_it = node.my_epoch == my_epoch.load(std::memory_order_relaxed);
         // this check is just an optimization
         if (do_it) {
+            __TBB_VERIF_POINT(vp_mon_commit_wait, this, 0);
            node.wait();
         } else {
             cancel_wait( node );
@@ -238,6 +243,7 @@ public:
 
     //! Cancel the wait. Removes the thread from the wait queue if not removed yet.
     void cancel_wait( wait_node<Context>& node ) {
+        __TBB_VERIF_POINT(vp_mon_cancel_wait, this, 0);
         // possible skipped wakeup will be pumped in the following prepare_wait()
         node.my_skipped_wakeup = true;
         // try to remove node from waitset
@@ -278,6 +284,7 @@ public:
 
     //! Notify one thread about the event. Relaxed version.
     void notify_one_relaxed() {
+        __TBB_VERIF_POINT(vp_mon_notify_enter, this, my_waitset.empty());
         if (my_waitset.empty()) {
             return;
         }
@@ -304,6 +311,7 @@ public:
             }
         }
 
+        __TBB_VERIF_POINT(vp_mon_notify_dequeued, this, n != end);
         if (n != end) {
             to_wait_node(n)->notify();
         }
@@ -317,6 +325,7 @@ public:
 
     // ! Notify all waiting threads of the event; Relaxed version
     void notify_all_relaxed() {
+        __TBB_VERIF_POINT(vp_mon_notify_enter, this, my_waitset.empty());
         if (my_waitset.empty()) {
             return;
         }
@@ -334,6 +343,7 @@ public:
             }
         }
 
+        __TBB_VERIF_POINT(vp_mon_notify_dequeued, this, 2);
         base_node* nxt;
         for (base_node* n = temp.front(); n != end; n=nxt) {
             nxt = n->next;
@@ -355,6 +365,7 @@ public:
     //! the predicate is called under the lock. Relaxed version.
     template<typename P>
     void notify_relaxed( const P& predicate ) {
+        __TBB_VERIF_POINT(vp_mon_notify_enter, this, my_waitset.empty());
         if (my_waitset.empty()) {
             return;
         }
@@ -376,6 +387,7 @@ public:
             }
         }
 
+        __TBB_VERIF_POINT(vp_mon_notify_dequeued, this, 3);
         end = temp.end();
         for (base_node* n=temp.front(); n != end; n = nxt) {
             nxt = n->next;
@@ -390,6 +402,7 @@ public:
     //! the predicate is called under the lock. Relaxed version.
     template<typename P>
     void notify_one_relaxed( const P& predicate ) {
+        __TBB_VERIF_POINT(vp_mon_notify_enter, this, my_waitset.empty());
         if (my_waitset.empty()) {
             return;
         }
@@ -412,6 +425,7 @@ public:
             }
         }
 
+        __TBB_VERIF_POINT(vp_mon_notify_dequeued, this, tmp != nullptr);
         if (tmp) {
             to_wait_node(tmp)->notify();
         }
@@ -425,6 +439,7 @@ public:
 
     //! Abort any sleeping threads at the time of the call; Relaxed version
     void abort_all_relaxed() {
+        __TBB_VERIF_POINT(vp_mon_notify_enter, this, my_waitset.empty());
         if (my_waitset.empty()) {
             return;
         }
